@@ -271,12 +271,21 @@ def extend (r : R) (n : Nat) (ws : List W) : R × List Call :=
   | .ok v => let (r', l) := runAll v n ws; (.ok r', l)
   | .err o => (.err o, [])
 
+/-- A default that short-circuited: the Transform callbacks of the chain are skipped; a Pipe target
+    is a second schema that receives whatever its source stage returns (C10: a pipe "hands the first
+    schema's result to the second"), so it runs — on the default itself, since nothing changed it. -/
+def runPipesOnly (v : V) (n : Nat) : List W → List Call
+  | [] => []
+  | .tf :: ws => runPipesOnly v (n + 1) ws
+  | .pipe :: ws => ⟨true, n, v⟩ :: runPipesOnly v (n + 1) ws
+
 /-- The statement for a nil input, given the class `o` the statement assigns to the bare schema:
-    the default is returned as it is and *no callback runs*; every other successful class goes through
-    all wrappers; an error stays that error and no callback runs. -/
+    the default is returned as it is and *none of the schema's Transform callbacks runs* (pipe targets
+    receive it); every other successful class goes through all wrappers; an error stays that error and
+    no callback runs. -/
 def specWrapped (o : Outcome) (ws : List W) : R × List Call :=
   match o with
-  | .dflt k => (.ok (.src (.dflt k)), [])
+  | .dflt k => (.ok (.src (.dflt k)), runPipesOnly (.src (.dflt k)) 1 ws)
   | .prefaultOk k => extend (.ok (.src (.prefaultOk k))) 1 ws
   | .nil => extend (.ok (.src .nil)) 1 ws
   | o => (.err o, [])
